@@ -91,8 +91,9 @@ fn main() {
                         let x = -(stake as f64 / total as f64) * (1.0 - phi).ln();
                         let abs_err = (p_star - exact).abs();
                         let e12 = (abs_err * 1e12).min(2.0e9) as u64;
+                        let e15 = (abs_err * 1e15).min(2.0e9) as u64;
                         trace.emit(json!({"ev":"Probe","phi":format!("{phi:e}"),"stake":stake.to_string(),"total":total.to_string(),
-                            "abs_err_e12": e12, "side": if p_star < exact {"low"} else {"high"},
+                            "abs_err_e12": e12, "abs_err_e15": e15, "side": if p_star < exact {"low"} else {"high"},
                             "x_milli": (x * 1000.0).min(2.0e9) as u64, "x_gt_265": x > 2.65, "p_star": format!("{p_star:e}"), "exact": format!("{exact:e}")}));
                         // monotone: around the threshold, smaller draws / larger stakes never lose what won
                         if let Some(h) = found {
